@@ -1,4 +1,4 @@
-import ProductMD.Proofs.ComposeId
+import ProductMD.Proofs.DtrExact
 /-!
 # C15 — compose ids encode date, type and respin recoverably
 
@@ -120,6 +120,44 @@ theorem C15_unknown_suffix_partial (P D L : Str) (r : Option Nat) (hP : '\n' ∉
   cases hl : L with
   | nil => exact absurd hl hne
   | cons x xs => rw [hl] at this; simpa [sufStr] using this
+
+/-! ### the decoder on every string -/
+theorem dtr_groups_gen (D : Str) (ty r : Option Str) :
+    let caps : Caps := rc r ++ (tc ty ++ [(1, D)])
+    namedGroup Spec.dtrGroups caps "date" = some D ∧ namedGroup Spec.dtrGroups caps "type" = ty
+    ∧ namedGroup Spec.dtrGroups caps "respin" = r := by
+  cases r <;> cases ty <;> simp [namedGroup, Spec.dtrGroups, List.lookup, Caps.get, rc, tc]
+
+theorem typeSplit_some {X t : Str} (h : (typeSplit X).1 = some t) : ∃ L, t = '.' :: L := by
+  cases X with
+  | nil => simp [typeSplit] at h
+  | cons c l =>
+    simp only [typeSplit] at h
+    split at h
+    · simp at h; exact ⟨_, h.symm⟩
+    · simp at h
+
+/-- **Exact behaviour of the decoder on EVERY string** (any length, any content, line feeds and Unicode digits
+included): the regex-driven `getDateTypeRespin` equals the directly written `dtrDirect` — the date is the LAST run of
+8 digits that starts in the first line, then the longest `.letters`, then the longest `.digits`; no such run gives
+`(None, None, None)`.  This is the statement from which F10 is read off: a respin of 8 or more digits is itself the
+last such run. -/
+theorem C15_decoder_exact (s : Str) : getDateTypeRespin s = dtrDirect s := by
+  unfold getDateTypeRespin dtrDirect
+  rw [C15_pattern.1]
+  cases h : lastWin s with
+  | none => rw [dtr_none s h]
+  | some p =>
+    obtain ⟨D, X⟩ := p
+    rw [dtr_some s D X h]
+    simp only [C15_pattern.2]
+    obtain ⟨h1, h2, h3⟩ := dtr_groups_gen D (typeSplit X).1 (respinSplit (typeSplit X).2)
+    simp only [h1, h2, h3]
+    cases hty : (typeSplit X).1 with
+    | none => rfl
+    | some t =>
+      obtain ⟨L, rfl⟩ := typeSplit_some hty
+      rfl
 
 /-! ### created ids -/
 /-- the domain of the property: a date of 8 digits, a compose type of the table, a natural respin; no line feed in
